@@ -687,3 +687,74 @@ func RunProcTwoTaskCase(seed int64, workDir string, variant int) *HistResult {
 	waitJobs(sys, []string{id}, 20*time.Second)
 	return res
 }
+
+// RunLongKillTimeoutShutdownCase: the embedding application configured a LONG kill timeout (5.5 s / 6.5 s instead of the
+// 2 s default) and forces a shutdown while a task runs a command that ignores the interrupt. An application exits when
+// Shutdown has returned, so at that instant nothing of the job may be alive any more: Shutdown has to wait for the kill
+// timeout it was configured with, however long that is.
+func RunLongKillTimeoutShutdownCase(seed int64, workDir string) *HistResult {
+	res := &HistResult{Seed: seed, Situations: map[string]map[string]struct{}{}, Evaluations: map[string]int{}}
+	find := func(sig, format string, args ...any) {
+		res.Findings = append(res.Findings, Finding{Props: []string{"C20"}, Sig: sig, Detail: fmt.Sprintf(format, args...), Step: -1})
+	}
+	K := []time.Duration{5500 * time.Millisecond, 6500 * time.Millisecond}[int(seed)%2]
+	dir, err := os.MkdirTemp(workDir, "ktlong-")
+	if err != nil {
+		res.Inconclusive = err.Error()
+		return res
+	}
+	defer os.RemoveAll(dir)
+	mark := fmt.Sprintf("kl%d-%d", os.Getpid(), seed&0xffffff)
+	def := definition.PipelineDef{Concurrency: 1, Tasks: map[string]definition.TaskDef{"tree": {Script: []string{`PXV_MARK={{.mark}} bash -c 'trap "" INT; sleep 300'`}}}, SourcePath: "gen"}
+	specs := []gen.PipeSpec{{Name: "ignorer", Def: def, Graph: gen.Graph{Names: []string{"tree"}, Deps: map[string][]string{}}}}
+	sys, _, _, err := realSysKT(specs, dir, &K)
+	if err != nil {
+		res.Inconclusive = err.Error()
+		return res
+	}
+	defer sys.Close()
+	defer func() {
+		for _, pid := range scanMarked(mark) {
+			if p, err := os.FindProcess(pid); err == nil {
+				_ = p.Kill()
+			}
+		}
+	}()
+	if _, cls := sys.Schedule(0, "ignorer", map[string]interface{}{"mark": mark}, "u"); cls != "ok" {
+		res.Inconclusive = "schedule: " + cls
+		return res
+	}
+	deadline := time.Now().Add(10 * time.Second)
+	for len(scanMarked(mark)) < 1 {
+		if time.Now().After(deadline) {
+			res.Inconclusive = "process tree did not come up"
+			return res
+		}
+		time.Sleep(2 * time.Millisecond)
+	}
+	time.Sleep(30 * time.Millisecond) // let bash install its trap (shaping only)
+	type ret struct {
+		alive []int
+		took  time.Duration
+	}
+	done := make(chan ret, 1)
+	t0 := time.Now()
+	go func() {
+		ctx, cancel := context.WithCancel(context.Background())
+		cancel()
+		_ = sys.Shutdown(0, ctx, "forced, long kill timeout")
+		done <- ret{scanMarked(mark), time.Since(t0)}
+	}()
+	select {
+	case r := <-done:
+		res.sit("C20", fmt.Sprintf("forced shutdown with kill timeout %v and a command that ignores the interrupt", K))
+		res.Evaluations["C20"]++
+		res.journalf("kill timeout %v: forced Shutdown returned after %v with %d processes alive", K, r.took.Round(10*time.Millisecond), len(r.alive))
+		if len(r.alive) > 0 {
+			find("C20:process-alive-when-forced-shutdown-returned", "kill timeout %v: the forced Shutdown returned after %v while %d processes of the job it canceled are alive (they ignore the interrupt and have not been killed yet): %s", K, r.took.Round(10*time.Millisecond), len(r.alive), describePids(r.alive))
+		}
+	case <-time.After(K + 25*time.Second):
+		res.Inconclusive = fmt.Sprintf("watchdog: forced Shutdown did not return within %v", K+25*time.Second)
+	}
+	return res
+}
